@@ -68,6 +68,39 @@ func genC15(maxOps int) func(t *rapid.T) c15Case {
 				c.Ops = append(c.Ops, c15Op{Kind: 1, Sender: snd, Topic: x, Burst: 1})
 			}
 		}
+		switch rapid.IntRange(0, 7).Draw(t, "template2") {
+		case 0:
+			// history template "quiet sessions": honest use in which nothing is ever held back - the local party sends first,
+			// the peers' messages follow - so every collection runs with an empty buffer; afterwards stragglers for the
+			// long finished sessions arrive
+			k := rapid.IntRange(1, 5).Draw(t, "qsessions")
+			for i := 0; i < k; i++ {
+				c.Ops = append(c.Ops, c15Op{Kind: 1, Sender: 1, Topic: 600 + i, Burst: 1},
+					c15Op{Kind: 0, Sender: rapid.IntRange(1, 3).Draw(t, "qsender"), Topic: 600 + i, Burst: rapid.IntRange(1, 3).Draw(t, "qburst")},
+					c15Op{Kind: 2, Epochs: rapid.IntRange(1, 2).Draw(t, "qgap")})
+			}
+			for g := 0; g < rapid.IntRange(2, 3).Draw(t, "qtriggers"); g++ {
+				c.Ops = append(c.Ops, c15Op{Kind: 2, Epochs: c.Expire + 1}, c15Op{Kind: 1, Sender: 1, Topic: 700 + g, Burst: 1})
+			}
+			for i := 0; i < k; i++ {
+				c.Ops = append(c.Ops, c15Op{Kind: 0, Sender: rapid.IntRange(1, 3).Draw(t, "qstraggler"), Topic: 600 + i, Burst: 1})
+			}
+			for i := 0; i < k; i++ {
+				c.Ops = append(c.Ops, c15Op{Kind: 1, Sender: 1, Topic: 600 + i, Burst: 1})
+			}
+		case 1:
+			// history template "flood keep-alive": a sender goes far beyond its message limit on a topic that never starts
+			// and keeps sending on it, a little at a time, while collections are triggered; finally the topic is started
+			snd := rapid.IntRange(1, 3).Draw(t, "fsender")
+			c.Ops = append(c.Ops, c15Op{Kind: 0, Sender: snd, Topic: 800, Burst: rapid.SampledFrom([]int{104, 110, 150}).Draw(t, "fburst")})
+			rounds := rapid.IntRange(2, 8).Draw(t, "frounds")
+			for i := 0; i < rounds; i++ {
+				c.Ops = append(c.Ops, c15Op{Kind: 2, Epochs: rapid.IntRange(1, c.Expire).Draw(t, "fgap")},
+					c15Op{Kind: 0, Sender: snd, Topic: 800, Burst: rapid.IntRange(1, 2).Draw(t, "fmore")},
+					c15Op{Kind: 1, Sender: snd, Topic: 810 + i, Burst: 1})
+			}
+			c.Ops = append(c.Ops, c15Op{Kind: 1, Sender: snd, Topic: 800, Burst: 1})
+		}
 		n := rapid.IntRange(3, maxOps).Draw(t, "nops")
 		base := 0
 		for i := 0; i < n; i++ {
@@ -102,6 +135,7 @@ type c15Msg struct {
 	mustNot            bool // the model says it must be shed (clearly beyond a limit)
 	arrIdx, handIdx    int  // logical time of arrival and of hand-off (0 = not handed)
 	mayExpire          bool
+	mustHold           bool // the topic's started-mark has certainly been collected: the message must be held, not forwarded
 	handed             int
 }
 
@@ -129,6 +163,8 @@ type c15Info struct {
 	Expiries                     int
 	ReuseAfterFinished           bool
 	Excluded                     int
+	StragglersAfterRelease       int
+	ShedWhileWaiting             int
 }
 
 func runC15(c c15Case) *vh.Outcome {
@@ -167,15 +203,23 @@ func runC15(c c15Case) *vh.Outcome {
 		clock := 0 // logical time: one tick per box call
 		byKey := map[string]*c15Msg{}
 		started := map[int]bool{}
-		lastSend := map[int]int{}        // topic -> epoch of the last Send
-		firstArrival := map[int]int{}    // pending topic -> epoch of its most recent arrival (the library keeps the newest)
+		lastSend := map[int]int{}     // topic -> epoch of the last Send
+		firstArrival := map[int]int{} // pending topic -> epoch of its most recent arrival (the library keeps the newest)
 		seqOf := map[[2]int]int{}
 		gcTriggersSince := map[int]int{} // pending topic -> number of *spaced* GC triggers (Sends on other topics, more than Expire epochs apart) since it became older than GCExpire
 		lastTrigger := map[int]int{}     // pending topic -> epoch of the last counted trigger
+		startedTriggers := map[int]int{} // started topic -> number of spaced GC triggers since its last Send became older than GCExpire
+		startedLastTrig := map[int]int{}
+		// a started topic whose last Send is older than GCExpire and that has seen two spaced GC triggers since then has
+		// certainly been collected: its bookkeeping is released, the buffer no longer knows that it ever started
+		certainlyForgotten := func(tp, now int) bool {
+			return started[tp] && now-lastSend[tp] > c.Expire && startedTriggers[tp] >= 2
+		}
 		certainlyExpired := func(tp, now int) bool {
 			fa, ok := firstArrival[tp]
 			return ok && !started[tp] && now-fa > c.Expire && gcTriggersSince[tp] >= 2
 		}
+		var sendEpochs []int // epoch of every Send so far (each one is a chance for the collector to run)
 		initialized := false
 		guard := func(what string, f func()) bool {
 			defer func() {
@@ -248,6 +292,13 @@ func runC15(c c15Case) *vh.Outcome {
 					sq := seqOf[key]
 					seqOf[key]++
 					m := &c15Msg{topic: op.Topic, sender: op.Sender, seq: sq, epoch: epoch}
+					m.mustHold = certainlyForgotten(op.Topic, epoch)
+					if m.mustHold {
+						info.StragglersAfterRelease++
+					}
+					if !isStarted(op.Topic, epoch) && pendingCount(op.Topic, op.Sender) >= c15PerSenderLimit+3 {
+						info.ShedWhileWaiting++ // the sender keeps sending on a waiting topic although it is clearly beyond its message limit
+					}
 					if !isStarted(op.Topic, epoch) {
 						if avoidExpiry {
 							// known findings L19: keep never-started data younger than GCExpire by construction
@@ -308,6 +359,9 @@ func runC15(c c15Case) *vh.Outcome {
 						box.HandleMessage(&tss.IncMessage{MsgType: uint8(tss.MsgTypeMPC), Source: uint16(op.Sender), Topic: c15Topic(op.Topic), Data: []byte(fmt.Sprintf("%d", sq))})
 					})
 					collect()
+					if fail == nil && m.mustHold && m.handed > 0 {
+						fail = vh.Failf("C15/started-topic-bookkeeping-not-released", "topic %d was last sent on at epoch %d; at epoch %d (GCExpire %d epochs, %d collections triggered since it expired) the buffer still remembers it as started: a message of sender %d went straight to the dispatcher instead of being held for a new session", op.Topic, lastSend[op.Topic], epoch, c.Expire, startedTriggers[op.Topic], op.Sender)
+					}
 				}
 			case 1:
 				initialized = true
@@ -346,6 +400,38 @@ func runC15(c c15Case) *vh.Outcome {
 				if fail != nil {
 					break
 				}
+				// expiry, judged after the fact: what this Send released is exactly what the buffer held for the topic. Let L be
+				// the newest arrival among it. Messages that were shed do not count as use of the buffered data, so if two
+				// earlier Sends g1 < g2 (each runs the collector unless one ran less than GCExpire before) satisfy
+				// g1 > L+GCExpire and g2 > g1+GCExpire, a collection certainly ran while this data was older than GCExpire.
+				{
+					newest, any := -1, false
+					var wit *c15Msg
+					for _, m := range all {
+						if m.topic == op.Topic && m.handed > before[m] && m.arrIdx < clock {
+							any = true
+							if m.epoch > newest {
+								newest, wit = m.epoch, m
+							}
+						}
+					}
+					if any {
+						g1 := -1
+						for _, g := range sendEpochs {
+							if g1 < 0 && g > newest+c.Expire {
+								g1 = g
+							} else if g1 >= 0 && g > g1+c.Expire {
+								info.Expiries++
+								fail = vh.Failf("C15/expired-pending-not-discarded", "the Send on topic %d at epoch %d released data whose newest buffered message arrived at epoch %d (sender %d seq %d); GCExpire is %d epochs and Sends at epochs %d and %d each had to run the collector unless one had run less than GCExpire before: the data should have been discarded", op.Topic, epoch, newest, wit.sender, wit.seq, c.Expire, g1, g)
+								break
+							}
+						}
+					}
+				}
+				sendEpochs = append(sendEpochs, epoch)
+				if fail != nil {
+					break
+				}
 				// order per sender within this release
 				// (collect() processes the handler log in hand-off order; check via seq monotonicity per sender)
 				if mustBeGone {
@@ -362,6 +448,16 @@ func runC15(c c15Case) *vh.Outcome {
 				}
 				started[op.Topic] = true
 				lastSend[op.Topic] = epoch
+				delete(startedTriggers, op.Topic)
+				delete(startedLastTrig, op.Topic)
+				for tp := range started {
+					if tp != op.Topic && epoch-lastSend[tp] > c.Expire {
+						if lt, ok := startedLastTrig[tp]; !ok || epoch-lt > c.Expire {
+							startedTriggers[tp]++
+							startedLastTrig[tp] = epoch
+						}
+					}
+				}
 				for tp, fa := range firstArrival {
 					if tp != op.Topic && !started[tp] && epoch-fa > c.Expire {
 						if lt, ok := lastTrigger[tp]; !ok || epoch-lt > c.Expire {
@@ -467,7 +563,7 @@ func runC15(c c15Case) *vh.Outcome {
 	})
 	o.Fail = fail
 	o.Key = fmt.Sprintf("%+v", c)
-	o.NonTrivial = info.CrossedPerSenderLimit || info.CrossedTopicLimit || info.Expiries > 0 || info.ReuseAfterFinished
+	o.NonTrivial = info.CrossedPerSenderLimit || info.CrossedTopicLimit || info.Expiries > 0 || info.ReuseAfterFinished || info.StragglersAfterRelease > 0
 	if info.CrossedPerSenderLimit {
 		o.Classes = append(o.Classes, "crossed-per-sender-message-limit")
 	}
@@ -479,6 +575,12 @@ func runC15(c c15Case) *vh.Outcome {
 	}
 	if info.ReuseAfterFinished {
 		o.Classes = append(o.Classes, "sender-reused-after-finished-topics")
+	}
+	if info.StragglersAfterRelease > 0 {
+		o.Classes = append(o.Classes, "straggler-after-started-topic-was-collected")
+	}
+	if info.ShedWhileWaiting > 0 {
+		o.Classes = append(o.Classes, "shed-message-on-waiting-topic")
 	}
 	if info.Excluded > 0 {
 		o.Classes = append(o.Classes, "excluded-by-known-finding-L19(expiry)")
